@@ -47,10 +47,18 @@ def _digits(s):
     return re.sub(r"[^0-9]", "", s)
 
 
+def _eol(t):
+    """XML's own line-end normalisation (XML 1.0 2.11): CR LF and lone CR read as LF.  The result XML carries raw CRs of
+    the source's character references literally (outside canonical generation), so its reader normalises them."""
+    return t.replace("\r\n", "\n").replace("\r", "\n")
+
+
 def text_equiv(al, elt_name, s, r):
     """documented typed-value equivalences of character data under element elt_name"""
     if s == r:
         return True
+    if _eol(s) == _eol(r):
+        return True                # XML's own line-end normalisation (named in the property)
     lid = al.lang_id
     if lid in SYNCML:
         if elt_name == "Type" and s.lower() in ("application/vnd.syncml-devinf+xml", "application/vnd.syncml.dmtnds+xml") and r == s.lower():
@@ -59,7 +67,7 @@ def text_equiv(al, elt_name, s, r):
             return True            # an XML source that names the WBXML representation: the XML generator names the XML one
         if elt_name == "Type" and lid != 2201 and s.lower() == "application/vnd.syncml.dmtnds+xml" and r == s:
             return True
-        if s.replace("\r\n", "\n").strip(WS) == r.replace("\r\n", "\n").strip(WS) and elt_name == "Data":
+        if _eol(s).strip(WS) == _eol(r).strip(WS) and elt_name == "Data":
             return True
     if lid in WV:
         a, b = _int(s), _int(r)
@@ -82,6 +90,10 @@ def text_equiv(al, elt_name, s, r):
 
 def attr_equiv(al, name, s, r):
     if s == r:
+        return True
+    # XML's own attribute-value normalisation (XML 1.0 3.3.3): line ends, then TAB / LF / CR read as a space
+    na = lambda t: _eol(t).replace("\t", " ").replace("\n", " ")
+    if na(s) == na(r):
         return True
     lid = al.lang_id
     if (lid == 1301 and name in ("created", "si-expires")) or (lid == 1701 and name == "timestamp"):
